@@ -145,6 +145,13 @@ def enum_units(tier, seed):
         {"t": "good", "records": [[0x20000, {"pat": [3, 65535]}], [0x20000 + 65535, {"pat": [9, 65535]}]], "delta": -0x200, "form": "zero-minus", "place": "between"},
         {"t": "good", "records": [[0xFFFF00, {"hex": "00" * 0x100}]], "delta": 0, "form": "lit", "place": "scope"},
     ]
+    # file lengths around the I/O buffer sizes: the EOF marker (and record headers) straddling a 4096 / 8192-byte boundary
+    for base in (4096, 8192, 16384, 65536):
+        for total in range(base - 6, base + 9):
+            n = total - 13
+            cases.append({"t": "good", "records": [[0x20000, {"pat": [total % 250, n]}]], "delta": 0, "form": "lit", "place": "top"})
+            cases.append({"t": "good", "records": [[0x20000, {"pat": [3, n - 9]}], [0x40000, {"rle": [0x11, 7]}], [0x50000, {"hex": "aa"}]][: 3 if n > 30 else 1],
+                          "delta": 0x200, "form": "lit", "place": "between"} if n > 30 and n - 9 <= 65535 else cases[-1])
     return {"units": [{"cases": cases[i::8]} for i in range(8)], "exhaustive": False}
 
 
